@@ -242,7 +242,7 @@ TIERS = {
 }
 
 
-def main(tier, root, budget_s=None, replay=None, prop=PROP, table=None, extra=None):
+def main(tier, root, budget_s=None, replay=None, prop=PROP, gen=None, extra=None, tiers=None, assumptions=None):
     from dsim import build
     T = H.Timer()
     repo = os.path.dirname(os.path.dirname(os.path.abspath(__import__('dadi').__file__)))
@@ -257,7 +257,8 @@ def main(tier, root, budget_s=None, replay=None, prop=PROP, table=None, extra=No
             print('VIOLATION property=%s replay=%s' % (prop, replay))
             return 1
         return 0
-    P = TIERS[tier]
+    P = (tiers or TIERS)[tier]
+    gen = gen or sess_item
     budget = float(budget_s or os.environ.get('VERIF_BUDGET_S') or P['budget'])
     t_end = time.monotonic() + budget
     nl = H.nproc_default()
@@ -280,7 +281,7 @@ def main(tier, root, budget_s=None, replay=None, prop=PROP, table=None, extra=No
 
     def work(pool_, lane, item):
         idx, faults = item
-        job = sess_item(root, 'main', idx, faults)
+        job = gen(root, 'main', idx, faults)
         fds, st = c20.evaluate(pool_, lane, job)
         return idx, faults, job, fds, st, pool_.seeds[lane]
 
@@ -318,7 +319,7 @@ def main(tier, root, budget_s=None, replay=None, prop=PROP, table=None, extra=No
         fresh_bad = []
 
         def fresh_work(pool_, lane, idx):
-            job = sess_item(root, 'fresh', idx, False)
+            job = gen(root, 'fresh', idx, False)
             cid = sorted(c for c in job['clients'] if c != 'cx')[0]
             solo = G.solo_job(job, cid)
             a = pool_.lanes[lane][0].run(solo)
@@ -422,7 +423,7 @@ def main(tier, root, budget_s=None, replay=None, prop=PROP, table=None, extra=No
     }
     if extra:
         cov.update(extra(stats))
-    H.write_evidence(prop, tier, root, cov, wall, reported, ASSUMPTIONS)
+    H.write_evidence(prop, tier, root, cov, wall, reported, assumptions or ASSUMPTIONS)
     print('%s %s: %d sessions, %d ops, %d distinct non-trivial interleavings, %d hash seeds, %d violations, %.1fs'
           % (prop, tier, stats['sessions'], stats['ops'], len(sigs), len(used_seeds), reported, wall))
     return 1 if reported else 0
